@@ -4,8 +4,8 @@
 
    A call with a subcommand is parse_args(parent items ++ [NAME] ++ subcommand items):
      1. the parent's _parse_defaults_and_environ (its own defaults, default config files, environment);
-        the subcommand's environment variables are NOT read here (only under PREFIX_SUBCOMMAND, which
-        the modelled space never sets);
+        the subcommand's environment variables are NOT read here, unless PREFIX_SUBCOMMAND names it
+        (load_env_vars_sub below);
      2. argparse walks the parent's items left to right; `--cfg` documents of the parent may carry a
         section for the subcommand (keys NAME.k): _find_action descends into the subcommand's parser,
         so merge_config works with the declarations of both levels;
@@ -35,8 +35,10 @@ Definition sub_call (sc : scall) : call :=
                (fixes/C04-section-append-uses-parent-list.patch);
    fx_section: get_defaults no longer insists on a subcommand after a default config file
                (fixes/C04-default-config-without-subcommand-section-rejected.patch). *)
-Record fixes := { fx_append : bool; fx_section : bool }.
-Definition nofix : fixes := {| fx_append := false; fx_section := false |}.
+(* fx_envsub:  _load_env_vars asks the subcommand named by PREFIX_SUBCOMMAND for its environment only (defaults=False)
+               (fixes/C04-subcommand-variable-resets-section-to-defaults.patch) *)
+Record fixes := { fx_append : bool; fx_section : bool; fx_envsub : bool }.
+Definition nofix : fixes := {| fx_append := false; fx_section := false; fx_envsub := false |}.
 
 Definition aa_step_sub (fx : fixes) (pown : parser) (nm : name) (ps : parser) (cfg : node) (key : tpath) : node :=
   match find_action pown (strip key) with
@@ -102,6 +104,49 @@ Definition first_file_has_section (nm : name) (pats : list (list (str * doc))) :
   | [] => true
   end.
 
+(* ---- the parent's _parse_defaults_and_environ when PREFIX_SUBCOMMAND may be set ---------------------------
+   _load_env_vars, second loop: `if env_var in env and isinstance(action, _ActionSubCommands)`: when the value
+   names a subcommand, `pcfg = subparser.parse_env(env=env, defaults=defaults)` and then
+   `for k, v in vars(pcfg).items(): cfg[subcommand + "." + k] = v` — EVERY top-level entry of the subcommand's
+   result, its DEFAULTS included, is written into the environment namespace after the environment config, and
+   merge_config(cfg_env, cfg) then puts it over the default config files.  A value naming the bystander
+   subcommand writes that one's branch (dropped again by get_subcommands once the token has chosen NAME: not
+   observed, not modelled); a value that is no subcommand is ignored (`if env_val in action.choices`). *)
+Fixpoint f_set_below (nm : name) (g : forest) (cfg : node) : node :=
+  match g with
+  | FNil => cfg
+  | FCons a c r => f_set_below nm r (ns_set [nm; a] c cfg)
+  end.
+
+Definition load_env_vars_sub (fx : fixes) (sc : scall) : node :=
+  let c := s_parent sc in
+  let p := c_parser c in
+  let cfg := Br FNil in
+  let cfg := match c_envcfg c with Some d => apply_config p cfg d | None => cfg end in
+  let cfg := match s_envsub sc with
+             | Some v =>
+                 if name_eqb v (s_name sc)
+                 then (* subparser.parse_env: its defaults and its variables, whatever env= says *)
+                      let cfg_env := load_env_vars (s_sub sc) None (s_subenv sc) in
+                      let pcfg := if fx_envsub fx then cfg_env      (* repaired: defaults=False *)
+                                  else merge_config (s_sub sc) cfg_env (get_defaults (s_sub sc) []) in
+                      f_set_below (s_name sc) (kids pcfg) cfg
+                 else cfg
+             | None => cfg
+             end in
+  fold_left
+    (fun cfg d => match alist_get (d_key d) (c_envvars c) with
+                  | Some v => ns_set (d_key d) (Leaf v) cfg
+                  | None => cfg
+                  end)
+    p cfg.
+
+Definition defaults_and_environ_sub (fx : fixes) (sc : scall) : node :=
+  let c := s_parent sc in
+  let p := c_parser c in
+  let cfg := get_defaults p (c_patterns c) in
+  if env_enabled c then merge_config p (load_env_vars_sub fx sc) cfg else cfg.
+
 Definition pipeline_sub_fx (fx : fixes) (sc : scall) : res node :=
   let c := s_parent sc in
   let pown := c_parser c in
@@ -111,7 +156,7 @@ Definition pipeline_sub_fx (fx : fixes) (sc : scall) : res node :=
   | EArgs argv =>
       if negb (fx_section fx || first_file_has_section nm (c_patterns c)) then Unrecognized else
       (* 1, 2 *)
-      match argv_fold_parent fx pown nm ps (defaults_and_environ c) argv with
+      match argv_fold_parent fx pown nm ps (defaults_and_environ_sub fx sc) argv with
       | Unrecognized => Unrecognized
       | Ok cfg1 =>
           (* 3: subnamespace = namespace.get(NAME).clone() if NAME in namespace else None *)
